@@ -16,6 +16,7 @@ import (
 	"time"
 
 	"github.com/arloliu/go-secs/v2/hsms"
+	"github.com/arloliu/go-secs/v2/secs2"
 	"pgregory.net/rapid"
 	"verif/harness/ev"
 	"verif/harness/netsim"
@@ -65,6 +66,28 @@ func runC05Script(rt *rapid.T) {
 	}
 	sl := &stLog{}
 	w.conn.AddConnStateChangeHandler(sl.handler)
+	// a data handler that can be made to block (a wedged application handler keeps the receive
+	// goroutine of its generation alive past the close timeout)
+	var wmu sync.Mutex
+	var wedge chan struct{}
+	w.conn.AddDataMessageHandler(func(m *hsms.DataMessage, _ hsms.SECS2Endpoint) {
+		if m.Stream() == 99 {
+			wmu.Lock()
+			g := wedge
+			wmu.Unlock()
+			if g != nil {
+				<-g
+			}
+		}
+	})
+	releaseWedge := func() {
+		wmu.Lock()
+		if wedge != nil {
+			close(wedge)
+			wedge = nil
+		}
+		wmu.Unlock()
+	}
 	var p *netsim.Peer
 	var all []*netsim.Peer
 	var hist []string
@@ -79,6 +102,7 @@ func runC05Script(rt *rapid.T) {
 			sl.gate = nil
 		}
 		sl.mu.Unlock()
+		releaseWedge()
 		_ = w.conn.Close()
 		for _, q := range all {
 			q.Close()
@@ -111,6 +135,7 @@ func runC05Script(rt *rapid.T) {
 	warnSeen := 0       // coalescing warnings already accounted for
 	closedAtCount := -1 // number of notifications when Close returned (no more until the next Open)
 	changes, sawDeselect, sawT7, sawCloseRace := 0, false, false, false
+	wedgedOnce := false
 
 	want := func() hsms.ConnState {
 		switch {
@@ -125,6 +150,11 @@ func runC05Script(rt *rapid.T) {
 		synctest.Wait()
 		if got := w.conn.State(); got != want() {
 			fail("after %s State()=%v, the script leaves the session %v", where, got, want())
+		}
+		if linkUp && p != nil {
+			if eof, _, _ := p.EOF(); eof {
+				fail("after %s the library has ended a connection that the script leaves %v", where, want())
+			}
 		}
 		// notifications
 		sl.mu.Lock()
@@ -213,6 +243,9 @@ func runC05Script(rt *rapid.T) {
 			}
 			if !stalled {
 				ops = append(ops, "stall-flap")
+			}
+			if selected && !wedgedOnce {
+				ops = append(ops, "wedge-drop-reconnect")
 			}
 		}
 		op := rapid.SampledFrom(ops).Draw(rt, "op")
@@ -303,6 +336,39 @@ func runC05Script(rt *rapid.T) {
 				linkLost()
 				sawT7 = true
 			}
+		case "wedge-drop-reconnect":
+			// The application's data handler blocks; the link dies; a send notices (write error) and the
+			// generation is torn down, its receive goroutine being abandoned after the close timeout;
+			// the next generation comes up and is selected; only THEN the old handler returns. The
+			// straggler of the dead generation must not touch the new one.
+			wedgedOnce = true
+			wmu.Lock()
+			wedge = make(chan struct{})
+			wmu.Unlock()
+			_ = p.Send(e37.DataFrame(0xffff, 99, 1, false, 0x9900+uint32(s), nil))
+			synctest.Wait()
+			unreachable()
+			p.C.Reset()
+			_ = p.C.Close()
+			ctx, cancel := ctxT(time.Second)
+			_, serr := w.conn.SendDataMessage(ctx, 1, 1, false, secs2.A("notice the dead link"))
+			cancel()
+			if serr == nil {
+				fail("a send on a reset link succeeded")
+			}
+			linkLost()
+			time.Sleep(2*time.Second + 100*time.Millisecond) // close timeout: the wedged receive goroutine is abandoned
+			sync("the wedged generation was given up")
+			connect()
+			_ = p.Send(sel)
+			if active {
+				_ = p.Send(e37.Control(e37.SelectRsp, 0xffff, 0, 0, openSel))
+				hasOpenSel = false
+			}
+			applySel()
+			sync("the next generation was selected")
+			releaseWedge()
+			sawDeselect = true // counts as a non-trivial history
 		case "stall-flap":
 			// a handler that stops draining while the session flaps more often than the 16-slot queue holds
 			sl.mu.Lock()
